@@ -553,7 +553,7 @@ func c13XMLStream(r *gen.Rng, w *c13World, pos []*c13Pos, thorough bool) []*c13R
 	add("xml-markup", "<"+w.M.Ident()+` a="1" a="2">`+"</"+w.M.Ident()+">")
 	add("xml-markup", "")
 	add("xml-markup", "just text")
-	depths := []int{2000, 20000}
+	depths := []int{2000, 12000}
 	if thorough {
 		depths = append(depths, 200000)
 	}
